@@ -1,4 +1,5 @@
 import NeverModel.Lemmas.Frame
+import NeverModel.Lemmas.TailSem
 /-!
 # C13 — self tail calls run in constant stack
 
@@ -10,6 +11,14 @@ whatever `L` is and however many iterations came before.  Hence the stack height
 iteration's entry is the same; the peak is that height plus the function's static maximum.
 Tied by lockstep traces; checks/c13.py additionally measures peak `sp` at N and 10·N iterations
 on the real VM and checks that marked calls are emitted as `SLIDE; CALL` in the dumped code.
+
+Second part (`namespace Never.Src.Tail.C13`): WHICH calls get that sequence.  `front/tailrec.c` is modelled in
+`Model/TailRec.lean` (`markedAt`), its table is regenerated from the C text on every run (`Gen/TailTab.lean`,
+gen/tailtab.py) and compared with the table the model is built on (`tail_table_agrees`) and with the rule of tail
+position itself (`tail_table_sound_partial`, `tail_table_complete`); the marker marks only calls in tail position
+(`marker_sound`), all self calls in tail position (`marker_complete`), none in a catch clause (`marker_skips_catch`);
+and on the reference evaluator a node in tail position, once reached, gives the body its whole result
+(`tail_position_value`).
 -/
 namespace Never.C13
 open Never Never.Vm
@@ -62,3 +71,334 @@ example : ∃ vm : Vm, StackOk vm ∧ vm.sp = vm.fp + 2 + 1 + 2 + 1 ∧ vm.sp < 
   ⟨{ Vm.new 10 32 with fp := 5, sp := 11 }, by simp [StackOk, Vm.new], by decide, by simp [Vm.new], by decide⟩
 
 end Never.C13
+
+/-! ## which calls are marked: the model of front/tailrec.c -/
+namespace Never.Src.Tail.C13
+open Never.Src Never.Src.Tail
+open Never.Gen.TailTab (Pass Row rows retags idRule caseLabels)
+
+/-! ### the table: translator tie -/
+
+/-- **The table regenerated from front/tailrec.c is the table the model is built on**: every visit of a child by
+`expr_tailrec` and its helpers, `func_tailrec_native` and `never_tailrec`, in source order, with its designator
+(case label, helper-switch labels, member path), the flag it hands down (its own / SKIP / ADD / fresh context) and the
+symbol table it hands down.  Kernel-checked against whatever gen/tailtab.py extracted from the CURRENT tree. -/
+theorem tail_table_agrees : rows = refRows := by decide +kernel
+
+/-- the retagging site and the self test, as text: `case EXPR_CALL`/`EXPR_LAST_CALL` retag exactly when the function
+expression is an identifier and `expr_id_tailrec` answers 1; that answers 1 exactly when the flag is ADD and the lookup
+restricted to the function's own tables (`SYMTAB_LOOKUP_FUNC`) finds a function defined one syntactic level up: the entry
+the function made for itself -/
+theorem retag_rule_agrees :
+    retags = [("EXPR_CALL", "value->call.func_expr->type == EXPR_ID && expr_id_tailrec(syn_level, stab, value->call.func_expr, op)", "EXPR_LAST_CALL"),
+              ("EXPR_LAST_CALL", "value->call.func_expr->type == EXPR_ID && expr_id_tailrec(syn_level, stab, value->call.func_expr, op)", "EXPR_LAST_CALL")] ∧
+    idRule = ["entry = symtab_lookup(stab, value->id.id, SYMTAB_LOOKUP_FUNC)", "!(op == TAILREC_OP_SKIP)", "entry != NULL",
+              "entry->type == SYMTAB_FUNC && entry->func_value != NULL", "op == TAILREC_OP_ADD && syn_level - 1 == entry->syn_level"] := by
+  decide +kernel
+
+/-- the function expression of a call (`EXPR_CALL` / the already retagged `EXPR_LAST_CALL`) -/
+def callFnKeys : List Key := [("EXPR_CALL", [], "call.func_expr"), ("EXPR_LAST_CALL", [], "call.func_expr")]
+
+/-- **Every child to which tailrec.c hands its flag is a tail child by the rule** — for ALL constructs of the C
+switch, modelled core or not — EXCEPT the function expression of a call, which receives the flag although what follows it
+is the call itself.  (PARTIAL: that entry is excused.  It cannot mark anything in a typed program: a self call `f(a)` in the
+function position of a call `f(a)(b)` in tail position of `f` would need `f`'s result type to be a function type returning
+itself.  It is reported as a latent defect.)  ADD is handed only to a function body and to a top-level expression item. -/
+theorem tail_table_sound_partial :
+    ∀ r ∈ rows, (r.pass = .op → specTailKey r.key = true ∨ r.key ∈ callFnKeys) ∧
+      (r.pass = .add → r.key = Slot.funcBody.key ∨ r.key = ("NEVER", ["SEQ_TYPE_EXPR"], "exprs[head].expr_value")) := by
+  decide +kernel
+
+/-- every tail child by the rule does receive the flag -/
+theorem tail_table_complete : ∀ k ∈ specTailKeys, ∃ r ∈ rows, r.key = k ∧ r.pass = .op := by
+  decide +kernel
+
+/-- catch clauses are visited with SKIP, nested functions and function items in a fresh context -/
+theorem tail_table_catch_and_nested :
+    ∀ r ∈ rows, (r.child ∈ ["except.list[].expr_value", "except.all.expr_value"] → r.pass = .skip) ∧
+      (r.construct = "EXPR_FUNC" → r.pass = .fresh) ∧ ("SEQ_TYPE_FUNC" ∈ r.quals → r.pass = .fresh) := by
+  decide +kernel
+
+/-- every `case` label of `expr_tailrec` is a leaf (no child) or has its visits in the table -/
+theorem case_labels_covered :
+    ∀ l ∈ caseLabels, l ∈ ["EXPR_BOOL", "EXPR_INT", "EXPR_LONG", "EXPR_FLOAT", "EXPR_DOUBLE", "EXPR_CHAR", "EXPR_STRING",
+      "EXPR_ENUMTYPE", "EXPR_NIL", "EXPR_C_NULL", "EXPR_ID"] ∨ ∃ r ∈ rows, r.construct = l := by
+  decide +kernel
+
+/-- the rule on the slots of the model and the rule on the C designators are the same rule -/
+theorem spec_rule_consistent : ∀ s : Slot, specTail s = specTailKey s.key := by
+  intro s
+  have h : Slot.all.all (fun s => specTail s == specTailKey s.key) = true := by decide +kernel
+  simpa using Slot.forall_of_all h s
+
+/-- the slots whose visit opens a table of the construct's own (`opensTable`, used by the marker's name lookup) are the
+ones for which the table says so (`scope` column: the block's / the comprehension's table is handed down) -/
+theorem opens_table_consistent : ∀ s : Slot, opensTable s = ["seq_value.stab", "listcomp_value.stab"].contains (refScope s) := by
+  intro s
+  have h : Slot.all.all (fun s => opensTable s == ["seq_value.stab", "listcomp_value.stab"].contains (refScope s)) = true := by
+    decide +kernel
+  simpa using Slot.forall_of_all h s
+
+theorem refRows_at_slot : ∀ s : Slot,
+    (match refRows[slotIdx s]? with | some r => r.pass | none => Pass.add) = refTab s := by
+  intro s
+  have h : Slot.all.all (fun s => (match refRows[slotIdx s]? with | some r => r.pass | none => Pass.add) == refTab s) = true := by
+    decide +kernel
+  simpa using Slot.forall_of_all h s
+
+/-- hence the model instantiated with the C code's table IS the model instantiated with the reference table -/
+theorem cTab_eq_refTab : cTab = refTab := by
+  funext s
+  unfold cTab
+  rw [tail_table_agrees]
+  exact refRows_at_slot s
+
+/-! ### the marker marks calls in tail position only -/
+
+/-- a table is sound when it hands the flag down to tail children only, and ADD to nothing but a function body -/
+structure TabSound (tab : Slot → Pass) : Prop where
+  op_tail : ∀ s, tab s = .op → specTail s = true
+  add_body : ∀ s, tab s = .add → s = .funcBody
+
+/-- the rule as a table -/
+def specTab : Slot → Pass
+  | .funcBody => .add
+  | s => if specTail s then .op else .skip
+
+theorem specTab_sound : TabSound specTab := by
+  constructor
+  · intro s h; cases s <;> simp_all [specTab, specTail]
+  · intro s h; cases s <;> simp_all [specTab, specTail]
+
+/-- **marker_sound.**  For a sound table: every node of a function body that the marker retags is a call of the
+function's own name, and it is in TAIL POSITION of the body — every step from the body to it is a branch of `?:`/`if`,
+the last expression of a block, a `match` arm or a branch of `if let`.  For all functions and all paths. -/
+theorem marker_sound (tab : Slot → Pass) (h : TabSound tab) (fn : Func) (p : Path)
+    (hm : markedInBody tab fn p = true) :
+    TailPath fn.body p ∧ ∃ args, sub fn.body p = some (.call (.var fn.name) args) := by
+  obtain ⟨c, hsub, hflag, hself⟩ := (markedAt_iff tab fn.name p _ _ _ _).mp hm
+  have hsome : (sub fn.body p).isSome := by rw [hsub]; rfl
+  have hna : ∀ st ∈ p, tab st.1 ≠ .add := by
+    intro st hst ha
+    exact steps_not_funcBody hsome st hst (h.add_body _ ha)
+  obtain ⟨_, hops⟩ := flagAlong_true tab p hna _ hflag
+  obtain ⟨args, hc, _, _⟩ := isSelfCall_spec hself
+  exact ⟨⟨hsome, fun st hst => h.op_tail _ (hops st hst)⟩, args, by rw [hsub, hc]⟩
+
+/-- **marker_skips_catch.**  A table that visits catch clauses with SKIP (and raises the flag nowhere inside an
+expression) marks nothing in a catch clause: the function's frame still exists when a handler runs. -/
+theorem marker_skips_catch (tab : Slot → Pass) (hadd : ∀ s, tab s = .add → s = .funcBody)
+    (h1 : tab .catchOne = .skip) (h2 : tab .catchAll = .skip) (fn : Func) (j : Nat) (p : Path) :
+    markedInCatch tab fn j p = false := by
+  unfold markedInCatch
+  split
+  · rename_i c _
+    have hf : flag (tab (if c.exc.isSome then Slot.catchOne else Slot.catchAll)) false = false := by
+      split <;> simp [h1, h2, flag]
+    rw [hf]
+    cases hm : markedAt tab fn.name (paramBinders fn.params) [] false c.body p with
+    | false => rfl
+    | true =>
+      obtain ⟨x, hsub, hflag, _⟩ := (markedAt_iff tab fn.name p _ _ _ _).mp hm
+      have hsome : (sub c.body p).isSome := by rw [hsub]; rfl
+      have hna : ∀ st ∈ p, tab st.1 ≠ .add := fun st hst ha => steps_not_funcBody hsome st hst (hadd _ ha)
+      rw [flagAlong_false tab p hna] at hflag
+      cases hflag
+  · rfl
+
+/-- **marker_complete.**  A table that hands the flag to every tail child and starts bodies with ADD marks EVERY self
+call in tail position (the identifier is the function's name and nothing in scope shadows it). -/
+theorem marker_complete (tab : Slot → Pass) (h : ∀ s, specTail s = true → tab s = .op) (hb : tab .funcBody = .add)
+    (fn : Func) (p : Path) (hs : SelfTailCall fn p) : markedInBody tab fn p = true := by
+  obtain ⟨⟨_, htail⟩, hne, hpar, hscope, args, hsub⟩ := hs
+  apply (markedAt_iff tab fn.name p _ _ _ _).mpr
+  refine ⟨_, hsub, ?_, ?_⟩
+  · rw [hb]; exact flagAlong_of_all_op tab p (fun st hst => h _ (htail st hst))
+  · have hnb : fn.name ∉ seenAlong (paramBinders fn.params) [] fn.body p := by
+      intro hin
+      rcases seenAlong_tail p _ _ _ htail _ hin with h1 | h1 | h1
+      · exact hpar h1
+      · cases h1
+      · exact hscope h1
+    simp [isSelfCall, hne, hnb]
+
+/-! ### … instantiated with the table of the C code -/
+
+/-- a path through tail children and function expressions of calls -/
+def TailOrHeadPath (e : Expr) (p : Path) : Prop :=
+  (sub e p).isSome ∧ ∀ st ∈ p, specTail st.1 = true ∨ st.1 = .callFn
+
+/-- **marker_sound for tailrec.c, PARTIAL.**  Every node tailrec.c retags is a call of the function's own name reached
+from the body through tail children — or through the function expression of a call (the excused table entry; missing for
+full strength: tailrec.c should visit `call.func_expr` with SKIP).  When no step of the path is a function expression
+this is `TailPath`. -/
+theorem marker_sound_c_partial (fn : Func) (p : Path) (hm : markedInBody cTab fn p = true) :
+    TailOrHeadPath fn.body p ∧ (∃ args, sub fn.body p = some (.call (.var fn.name) args)) ∧
+      ((∀ st ∈ p, st.1 ≠ Slot.callFn) → TailPath fn.body p) := by
+  rw [cTab_eq_refTab] at hm
+  obtain ⟨c, hsub, hflag, hself⟩ := (markedAt_iff refTab fn.name p _ _ _ _).mp hm
+  have hsome : (sub fn.body p).isSome := by rw [hsub]; rfl
+  have hna : ∀ st ∈ p, refTab st.1 ≠ .add := by
+    intro st hst ha
+    apply steps_not_funcBody hsome st hst
+    revert ha; cases st.1 <;> simp [refTab]
+  obtain ⟨_, hops⟩ := flagAlong_true refTab p hna _ hflag
+  obtain ⟨args, hc, _, _⟩ := isSelfCall_spec hself
+  have hstep : ∀ st ∈ p, specTail st.1 = true ∨ st.1 = .callFn := by
+    intro st hst
+    have := hops st hst
+    revert this; cases st.1 <;> simp [refTab, specTail]
+  refine ⟨⟨hsome, hstep⟩, ⟨args, by rw [hsub, hc]⟩, ?_⟩
+  intro hno
+  exact ⟨hsome, fun st hst => (hstep st hst).resolve_right (hno st hst)⟩
+
+/-- **marker_complete for tailrec.c** (full): every self call in tail position is retagged -/
+theorem marker_complete_c (fn : Func) (p : Path) (hs : SelfTailCall fn p) : markedInBody cTab fn p = true := by
+  rw [cTab_eq_refTab]
+  exact marker_complete refTab (by intro s h; cases s <;> simp_all [refTab, specTail]) rfl fn p hs
+
+/-- **tailrec.c marks nothing in a catch clause** (full) -/
+theorem marker_skips_catch_c (fn : Func) (j : Nat) (p : Path) : markedInCatch cTab fn j p = false := by
+  rw [cTab_eq_refTab]
+  exact marker_skips_catch refTab (by intro s h; cases s <;> simp_all [refTab]) rfl rfl fn j p
+
+/-! ### why tail position: the semantic justification on the reference evaluator -/
+
+/-- **tail_position_value.**  If evaluating `body` (any fuel, environment, state) reaches the node `c` at path `p`
+through tail children — conditions decided for the branch on the path, earlier items of blocks completed, the arm on the
+path selected — then the result of `body` IS the result of `c` evaluated there: the same value cell, the same store and
+printed output, the same exception, the same stop.  Nothing of `body` remains to be done after `c`, which is what allows
+the frame to be replaced.  (`p` is then a tail path and `c` the node at `p`.) -/
+theorem tail_position_value (ctx : Ctx) (f : Nat) (env : Env) (s : St) (body : Expr) (p : Path)
+    (f' : Nat) (env' : Env) (s' : St) (c : Expr) (h : Reach ctx f env s body p f' env' s' c) :
+    evalE f ctx env body s = evalE f' ctx env' c s' ∧ TailPath body p ∧ sub body p = some c := by
+  obtain ⟨h1, h2, h3⟩ := reach_eval h
+  exact ⟨h1, ⟨by rw [h2]; rfl, h3⟩, h2⟩
+
+/-! ### the function around the body: when may the FRAME be replaced? -/
+
+/-- what the rules still owe after the node in tail position: conversion to the declared result type when it yields a value;
+when it raises, the catch clauses OF THIS INVOCATION, run in its parameter environment -/
+def afterTail (ctx : Ctx) (f : Nat) (env : Env) (fn : FunEntry) (r : Res Loc) : Res Loc :=
+  match r with
+  | .ok l s1 => convCell fn.ret l s1
+  | .exc e s1 => (handle f ctx env fn.catches e >>= convCell fn.ret) s1
+  | .stop k s1 => .stop k s1
+
+/-- **tail_call_owes_handlers.**  A call of function `fid` whose body reaches a node `c` in tail position returns what `c`
+returns, converted to the declared result type — and if `c` RAISES, the exception is offered to the catch clauses of THIS
+invocation, which run in ITS parameter environment `env`.  So the invocation's frame is still needed after `c` exactly
+when the function has catch clauses: tail position in the body is not enough to replace the frame of such a function
+(known finding `tail-call-under-own-catch-clauses`: tailrec.c marks these calls too). -/
+theorem tail_call_owes_handlers (ctx : Ctx) (f : Nat) (fid : Nat) (cells args : List Loc) (s s0 : St) (fn : FunEntry) (env : Env)
+    (p : Path) (f' : Nat) (env' : Env) (s' : St) (c : Expr)
+    (hfn : ctx.findFun fid = some fn) (har : fn.params.length = args.length)
+    (hbind : bindParams fn.params args (mkEnv fn.bs cells) s = .ok env s0)
+    (h : Reach ctx f env s0 fn.body p f' env' s' c) :
+    callClo (f + 1) ctx fid cells args s = afterTail ctx f env fn (evalE f' ctx env' c s') := by
+  obtain ⟨h1, _, _⟩ := reach_eval h
+  simp only [callClo, hfn, har, ne_eq, not_true_eq_false, if_false, bind_eq, M.bind, hbind, tryCatch, h1, afterTail]
+  cases evalE f' ctx env' c s' <;> rfl
+
+/-- an exception that leaves a function without catch clauses is re-raised (and logged once more in the trace of raised
+exceptions, which no outcome shows) -/
+def passThrough (r : Res Loc) : Res Loc :=
+  match r with
+  | .exc e s1 => .exc e { s1 with raised := e :: s1.raised }
+  | r => r
+
+/-- **tail_call_replaces_frame.**  In a function WITHOUT catch clauses, a self call reached in tail position of the body
+gives the invocation its whole result: value cell (already of the declared type: the second conversion is the identity),
+store, output, exception, stop — nothing of the invocation is needed after the call is entered, which is what
+`args; func; SLIDE; CALL` (Never.C13.tail_call_restores_entry) relies on. -/
+theorem tail_call_replaces_frame (ctx : Ctx) (f : Nat) (fid : Nat) (cells args : List Loc) (s s0 : St) (fn : FunEntry) (env : Env)
+    (p : Path) (f' : Nat) (env' : Env) (s' : St) (c : Expr) (n : Nat) (cells2 args2 : List Loc) (s2 : St)
+    (hfn : ctx.findFun fid = some fn) (har : fn.params.length = args.length) (hc : fn.catches = [])
+    (hbind : bindParams fn.params args (mkEnv fn.bs cells) s = .ok env s0)
+    (h : Reach ctx f env s0 fn.body p f' env' s' c)
+    (hself : evalE f' ctx env' c s' = callClo n ctx fid cells2 args2 s2) :
+    callClo (f + 1) ctx fid cells args s = passThrough (callClo n ctx fid cells2 args2 s2) := by
+  rw [tail_call_owes_handlers ctx f fid cells args s s0 fn env p f' env' s' c hfn har hbind h, hself]
+  cases hr : callClo n ctx fid cells2 args2 s2 with
+  | ok l s1 => simp only [afterTail, passThrough]; exact callClo_result_converted hfn hr
+  | stop k s1 => rfl
+  | exc e s1 =>
+    simp only [afterTail, passThrough, hc, bind_eq, M.bind]
+    cases f with
+    | zero =>
+      have hf' := reach_zero h
+      subst hf'
+      rw [← hself] at hr
+      simp [evalE, oof, stopM] at hr
+    | succ f => simp [handle, throwE]
+
+/-! ### the hypotheses are satisfiable; the rule is not too generous -/
+
+/-- `func loop(n : int, acc : int) -> int { n == 0 ? acc : { let m = n - 1; loop(m, acc + n) } }
+    catch (division_by_zero) { loop(0, 0) }` -/
+def exLoop : Func :=
+  .mk 1 "loop" [{ name := "n", ty := .int }, { name := "acc", ty := .int }] .int
+    (.cond (.bin .eq (.var "n") (.lit (.int 0))) (.var "acc")
+      (.seq [.bind false "m" (.bin .sub (.var "n") (.lit (.int 1))),
+             .expr (.call (.var "loop") [.var "m", .bin .add (.var "acc") (.var "n")])]))
+    [.mk (some .division_by_zero) (.call (.var "loop") [.lit (.int 0), .lit (.int 0)])]
+
+/-- else-branch of the `?:`, then the last item of the block -/
+def exPath : Path := [(.condE, 0), (.seqLastExpr, 1)]
+
+example : TabSound specTab := specTab_sound
+example : markedInBody specTab exLoop exPath = true := by decide
+example : markedInBody cTab exLoop exPath = true := by rw [cTab_eq_refTab]; decide
+/-- the call in the catch clause is a self call, unmarked -/
+example : sub (Catch.body (.mk (some .division_by_zero) (.call (.var "loop") [.lit (.int 0), .lit (.int 0)]))) [] =
+    some (.call (.var "loop") [.lit (.int 0), .lit (.int 0)]) ∧ markedInCatch cTab exLoop 0 [] = false :=
+  ⟨rfl, marker_skips_catch_c _ _ _⟩
+example : SelfTailCall exLoop exPath := ⟨by decide, by decide, by decide, by decide, _, rfl⟩
+/-- a step through the function expression of a call: marked by tailrec.c's table, not by the rule's -/
+example : markedInBody cTab (.mk 2 "f" [] .func (.call (.call (.var "f") []) []) []) [(.callFn, 0)] = true ∧
+    markedInBody specTab (.mk 2 "f" [] .func (.call (.call (.var "f") []) []) []) [(.callFn, 0)] = false := by
+  rw [cTab_eq_refTab]; decide
+
+/-- control reaches `7` in `true ? { 7 } : 8` -/
+example : Reach {} 3 [] {} (.cond (.lit (.bool true)) (.seq [.expr (.lit (.int 7))]) (.lit (.int 8)))
+    [(.condT, 0), (.seqLastExpr, 0)] 0 [] { mem := #[.int 1] } (.lit (.int 7)) := by
+  refine Reach.condT (lc := 0) (s1 := { mem := #[.int 1] }) (v := 1) ?_ rfl (by decide) ?_
+  · simp [evalE, alloc, litVal, bool2v]
+  · exact Reach.seqLast SeqReach.last Reach.here
+
+/-- **An operand is not in tail position**: `-(1)` evaluates its operand first, in the same state, and is NOT the
+operand's result (another cell, another value) — the statement of `tail_position_value` fails for the slot `unArg`. -/
+theorem operand_not_tail_counterexample :
+    sub (.un .neg (.lit (.int 1))) [(.unArg .neg, 0)] = some (.lit (.int 1)) ∧
+    evalE 2 {} [] (.un .neg (.lit (.int 1))) {} ≠ evalE 1 {} [] (.lit (.int 1)) {} := by
+  refine ⟨rfl, ?_⟩
+  simp [evalE, bind_eq, M.bind, alloc, load, litVal, unop, liftOp, pure, M.pure]
+
+/-- **The scrutinee of a `match` is not in tail position** (the defect f00daac of the pinned tree treated it as one):
+the `match` evaluates its scrutinee first, in the same state, and yields ANOTHER value (`E::two` = 1 where the scrutinee
+is `E::one` = 0). -/
+theorem scrutinee_not_tail_counterexample :
+    sub exFlip [(.matchScrut, 0)] = some (.enumVal "E" "one") ∧
+    evalE 3 exCtx [] exFlip {} = .ok 1 { mem := #[.int 0, .int 1] } ∧
+    evalE 2 exCtx [] (.enumVal "E" "one") {} = .ok 0 { mem := #[.int 0] } := by
+  refine ⟨rfl, ?_, ?_⟩
+  · simp [evalE, evalGuards, exFlip, bind_eq, M.bind, alloc, load, exCtx_one, exCtx_two, exCtx_rec]
+  · simp [evalE, alloc, exCtx_one, exCtx_rec]
+
+/-- `func f() -> int { true ? f() : 0 }` -/
+def exF : FunEntry :=
+  { id := 0, bs := ["f"], params := [], ret := .int,
+    body := .cond (.lit (.bool true)) (.call (.var "f") []) (.lit (.int 0)), catches := [] }
+def exFctx : Ctx := { funs := [exF] }
+def exS0 : St := { mem := #[.clo (some (0, [0]))] }
+def exS1 : St := { mem := #[.clo (some (0, [0])), .int 1] }
+
+/-- the hypotheses of `tail_call_replaces_frame` (and of `tail_call_owes_handlers`) hold of a concrete self tail call -/
+example : callClo 4 exFctx 0 [0] [] exS0 = passThrough (callClo 1 exFctx 0 [0] [] exS1) := by
+  refine tail_call_replaces_frame exFctx 3 0 [0] [] exS0 exS0 exF [("f", 0)] [(.condT, 0)] 2 [("f", 0)] exS1
+    (.call (.var "f") []) 1 [0] [] exS1 rfl rfl rfl rfl ?_ ?_
+  · refine Reach.condT (lc := 1) (s1 := exS1) (v := 1) ?_ rfl (by decide) Reach.here
+    simp [evalE, alloc, litVal, bool2v, exS0, exS1]
+  · simp [evalE, evalArgs, lookup, load, exS1, bind_eq, M.bind, pure, M.pure]
+
+end Never.Src.Tail.C13
